@@ -280,6 +280,7 @@ def bits(x):
     return struct.pack("<d", float(x))
 
 
+@core.alt_tmpdir
 def exec_write(job):
     """files evo writes, parsed by the independent parser of the conventions"""
     from evo.core.trajectory import PosePath3D, PoseTrajectory3D
@@ -325,6 +326,7 @@ def exec_write(job):
         shutil.rmtree(d, ignore_errors=True)
 
 
+@core.alt_tmpdir
 def exec_roundtrip(job):
     from evo.core import result
     from evo.core.trajectory import PosePath3D, PoseTrajectory3D
